@@ -198,6 +198,8 @@ def str2num(x, signed=True, n_word=None, n_frac=None, base=10, return_sizes=Fals
         _n_frac_max = None
 
         for idx, v in enumerate(x):
+            if isinstance(v, np.ndarray):
+                v = v.tolist()      # (bin() / hex() of a 2-D Fxp return a list of string arrays)
             x[idx], _signed, _n_word, _n_frac = str2num(v, signed, n_word, n_frac, base, return_sizes=True)
 
             _signed = _signed_max or _signed
